@@ -5,7 +5,8 @@
 (*   m(a1..ak)          ->  { .const p1 = (a1) ... .const pk = (ak)  body }   (fresh scope)  *)
 (*   .const c = e       ->  every use of c replaced by (e)          (top-level, unique c)    *)
 (*   { B }              ->  { B }                                                          *)
-(*   .import * from f   ->  the statements of f in place;  .import * as m from f -> m: {..} *)
+(*   .import * from f   ->  the statements of f in place;  .import * as m from f [{P}] -> m: {P f}  *)
+(*   .import a as b from f [{P}] -> impN: {P f}  .const b = impN.a                                *)
 (* ExpandAll applies this everywhere (innermost constructs of macro bodies included), so    *)
 (* nesting composes; Expand1 expands only the outermost constructs of the top level.        *)
 EXTENDS Asm
@@ -80,9 +81,18 @@ ExpS(s, macros, files, deep) ==
     [] s.k = "label" /\ s.hasBody -> <<[s EXCEPT !.body = Sub(s.body)]>>
     [] s.k = "braces" -> <<[s EXCEPT !.body = Sub(s.body)]>>
     [] s.k = "useseg" /\ s.hasBody -> <<[s EXCEPT !.body = Sub(s.body)]>>
-    [] s.k = "import" /\ s.file \in DOMAIN files /\ ~s.hasParams ->
-         IF s.hasAs THEN <<[k |-> "label", name |-> s.as, hasBody |-> TRUE, body |-> Sub(files[s.file]), sid |-> s.sid]>>
-         ELSE Sub(files[s.file])
+    [] s.k = "import" /\ s.file \in DOMAIN files /\ (~s.hasParams \/ s.hasAs \/ s.sel # <<>>) ->
+         (* the file's text (after the parameter block) in a scope at the import site, the imported names visible:
+            `* as m'  -> a block labelled m;   `a as b, ..' -> a block with a private label and constants b = block.a;
+            `*' without parameters -> the statements in place *)
+         LET text == (IF s.hasParams THEN Sub(s.params) ELSE <<>>) \o Sub(files[s.file])
+             priv == "imp" \o s.sid IN
+         IF s.sel # <<>>
+           THEN <<[k |-> "label", name |-> priv, hasBody |-> TRUE, body |-> text, sid |-> s.sid]>>
+                \o [i \in 1..Len(s.sel) |-> [k |-> "const", name |-> s.sel[i].as, sid |-> s.sid,
+                                              e |-> [k |-> "id", name |-> priv \o "." \o s.sel[i].name, path |-> <<priv, s.sel[i].name>>, mod |-> ""]]]
+         ELSE IF s.hasAs THEN <<[k |-> "label", name |-> s.as, hasBody |-> TRUE, body |-> text, sid |-> s.sid]>>
+         ELSE text
     [] OTHER -> <<s>>
 
 (* top-level constants with a unique name and a constant-free right-hand side are replaced by their value *)
